@@ -43,6 +43,9 @@ def C03(run):
     run.assumptions += ['numbers outside the fixed-point domain n/64, |n|<2^30 (plus the symbolic big integers) are not compared',
                         'AST built directly (no parser) for program-level cases']
     table(run, 'C03')
+    # statement-level combinations (compound assignment with one, two and three operands on every operand class, mutations with and
+    # without parameter, increments of every class): family ILL with the full outcome comparison
+    interp(run, 'ILL')
     run.rule += TRACE_NOTE.replace('; recorded', '; expressions nested in every statement position: recorded')
     interptrace(run)
 
@@ -147,7 +150,7 @@ def record_validate(run, name, family, module, cfg, n, maxlen, xss='64m', timeou
                     pass
 
 
-LEX_QUICK = ['core3', 'multi4', 'uni4', 'num4', 'ws4', 'kw4', 'qnl3', 'cnl3']
+LEX_QUICK = ['core3', 'multi4', 'uni4', 'num4', 'ws4', 'kw4', 'qnl4', 'cnl3']
 LEX_THOROUGH = ['core4', 'multi5', 'uni5', 'num5', 'ws5', 'kw5', 'qnl4', 'cnl4']
 
 
